@@ -3,7 +3,6 @@ From IV Require Import Base.Bytes Model.Policy Model.Smtp Gen.SmtpReplies Proofs
 From Coq Require Import ZifyBool Lia.
 From IV Require Import Proofs.SmtpReplies.
 Theorem every_source_code_is_a_model_code : forall code, In code smtp_reply_codes ->
-  code = 220%Z \/
-  exists s it s' r d, step c0 s it = Ok s' r d /\ hook_code_free it = true /\ In code (map fst r).
+  exists c s it s' r d, step c s it = Ok s' r d /\ hook_code_free it = true /\ In code (map fst r).
 Proof. first [exact SmtpReplies.every_source_code_is_a_model_code | intros; apply SmtpReplies.every_source_code_is_a_model_code]. Qed.
 Print Assumptions every_source_code_is_a_model_code.
